@@ -2,12 +2,12 @@ package main
 
 func init() {
 	regWorld(&World{Name: "we", Pkg: "google.golang.org/grpc/internal/zzverif/we", Mounts: map[string]string{"internal/zzverif/we": "sim/we"}})
-	selftestProps = append(selftestProps, "C02")
-	regProp("C01", we().doc(
+	selftestProps = append(selftestProps, "C02we")
+	regProp("C01we", we().doc(
 		"Seeded search over schedules, network segmentations/stalls/cuts and application scripts with a real client and a real server; an independent HTTP/2 decoder on the wire keeps, per sender, the peer-granted connection and stream windows (grants count from delivery, emissions from write) and flags any DATA beyond them, any DATA frame > 16 KiB and any header fragment > the peer's MAX_FRAME_SIZE.",
 		"Trusted: x/net/http2 Framer+hpack as the independent decoder, simnet, detrt. Window sizes below 64 KiB, SETTINGS changes mid-stream and adversarial WINDOW_UPDATE orders need the scripted peer (WT world).",
 		"wire-tap window ledger over real client<->server runs"))
-	regProp("C02", we().doc(
+	regProp("C02we", we().doc(
 		"Same runs as C01 with attributable payload bytes (a function of rpc, direction, message index, offset): the tap re-assembles each stream's DATA into gRPC messages and compares every byte, message length and message count with what the application submitted; END_STREAM exactly once, no DATA/HEADERS after own END_STREAM or RST_STREAM; under cancellation, resets, cuts and server stop a stream may end at any prefix but never skip, repeat or reorder.",
 		"Trusted: as C01. Completeness is asserted for streams that ended normally (END_STREAM without RST).",
 		"wire-tap per-stream byte ledger with attributable payloads"))
